@@ -35,7 +35,7 @@ theorem step_frame {s s' : State} {e : Ev} (hok : step s e = .ok s') :
     exact ⟨rfl, by simp [Ev.newSends, recvCore, State.credit], rfl⟩
   | crecv c h st ds =>
     cases crecv_cases hok with
-    | plain nxt snd _ _ _ _ _ _ hds =>
+    | plain nxt snd _ _ _ _ _ _ _ hds =>
       obtain ⟨r1, _, r3, r4⟩ := applyDescs_frame hds
       exact ⟨r3, r4, r1⟩
     | token nxt snd out _ _ _ _ _ _ _ _ hds =>
@@ -52,7 +52,7 @@ theorem step_wf {s s' : State} {e : Ev} (hw : WF s) (hf : Fresh s e) (hok : step
     exact hw.recvCore hc
   | crecv c h st ds =>
     cases crecv_cases hok with
-    | plain nxt snd _ _ hchk _ _ _ hds =>
+    | plain nxt snd _ _ hchk _ _ _ _ hds =>
       exact (hw.recvCore hchk).descs (hf.descs.of_frame rfl) hds
     | token nxt snd out _ _ hchk _ _ hm _ _ hds =>
       have hw1 := hw.recvCore hchk
@@ -71,7 +71,7 @@ theorem step_conserved {s s' : State} {e : Ev} (hg : s.gate = true) (hw : WF s) 
     exact hc.of_total rfl (total_recvCore hw hg hchk)
   | crecv c h st ds =>
     cases crecv_cases hok with
-    | plain nxt snd _ _ hchk _ _ _ hds =>
+    | plain nxt snd _ _ hchk _ _ _ _ hds =>
       have hw1 := hw.recvCore hchk
       have hc1 : Conserved (recvCore s c h snd) := hc.of_total rfl (total_recvCore hw hg hchk)
       exact hc1.of_total (applyDescs_frame hds).2.1 (total_applyDescs hw1 (hf.descs.of_frame rfl) hds)
@@ -95,7 +95,7 @@ theorem step_toks {s s' : State} {e : Ev} (hok : step s e = .ok s')
     rfl
   | crecv c h st ds =>
     cases crecv_cases hok with
-    | plain nxt snd _ _ _ _ _ _ hds => exact (applyDescs_frame hds).2.1
+    | plain nxt snd _ _ _ _ _ _ _ hds => exact (applyDescs_frame hds).2.1
     | token nxt snd out _ _ _ hc hst _ _ _ _ => subst hc; subst hst; exact absurd rfl (hne h ds)
 
 theorem step_supplyLeMax {s s' : State} {e : Ev} (hs : SupplyLeMax s) (hcalls : CallsOk s)
@@ -107,7 +107,7 @@ theorem step_supplyLeMax {s s' : State} {e : Ev} (hs : SupplyLeMax s) (hcalls : 
     rw [SupplyLeMax, step_toks hok (by intro _ _ h; cases h)]; exact hs
   | crecv c h st ds =>
     cases crecv_cases hok with
-    | plain nxt snd _ _ _ _ _ _ hds => rw [SupplyLeMax, (applyDescs_frame hds).2.1]; exact hs
+    | plain nxt snd _ _ _ _ _ _ _ hds => rw [SupplyLeMax, (applyDescs_frame hds).2.1]; exact hs
     | token nxt snd out _ _ hchk _ _ hm _ _ hds =>
       rw [SupplyLeMax, (applyDescs_frame hds).2.1]
       obtain ⟨hfind, _, _⟩ := checkFrom_ok.1 hchk
@@ -195,7 +195,7 @@ theorem step_total {s s' : State} {e : Ev} (hg : s.gate = true) (hw : WF s) (hf 
     exact total_recvCore hw hg hchk t
   | crecv c h st ds =>
     cases crecv_cases hok with
-    | plain nxt snd _ _ hchk _ _ _ hds =>
+    | plain nxt snd _ _ hchk _ _ _ _ hds =>
       rw [total_applyDescs (hw.recvCore hchk) (hf.descs.of_frame rfl) hds t, total_recvCore hw hg hchk t]
     | token nxt snd out _ _ _ hc hst _ _ _ _ => subst hc; subst hst; exact absurd rfl (hne h ds)
 
@@ -242,7 +242,7 @@ theorem step_noUnderflow {s s' : State} {e : Ev} (hok : step s e = .ok s') : NoU
   | urecv a h => trivial
   | crecv c h st ds =>
     cases crecv_cases hok with
-    | plain nxt snd _ _ hchk _ _ _ hds => exact ⟨snd, hchk, Or.inl (guardedDescs_of_ok hds)⟩
+    | plain nxt snd _ _ hchk _ _ _ _ hds => exact ⟨snd, hchk, Or.inl (guardedDescs_of_ok hds)⟩
     | token nxt snd out _ _ hchk _ _ hm _ hburn hds =>
       exact ⟨snd, hchk, Or.inr ⟨out, hm, hburn, guardedDescs_of_ok hds⟩⟩
 
